@@ -1,12 +1,17 @@
-(* C19 — ParseError line numbers: every ParseError raised by _parse names the line of a reader position (1 + the number of newlines before some offset of the source). *)
+(* C19 — ParseError line numbers, exactly.  The reader state carries reader.pos; every
+   ParseError is raised with lineno = 1 + the number of newlines before reader.pos,
+   and reader.pos is characterised per error class (just after the closing token of
+   the offending tag / just after the unterminated opening token / the point after
+   which no further tag exists). *)
 From Coq Require Import List NArith Arith Bool String Lia.
 Import ListNotations.
 From TV Require Import Lib.Obs Lib.C21_Utf8 C19.Model.
 Local Open Scope N_scope.
 
-(* the reader is at offset n of the source and its line counter is 1 + newlines before n *)
 Definition pos_ok (src : text) (st : rstate) : Prop :=
-  exists n, r_txt st = skipn n src /\ r_line st = (1 + count_nl (firstn n src))%nat.
+  r_txt st = skipn (r_pos st) src
+  /\ r_line st = (1 + count_nl (firstn (r_pos st) src))%nat
+  /\ (r_pos st <= List.length src)%nat.
 
 Lemma count_nl_app a b : count_nl (a ++ b) = (count_nl a + count_nl b)%nat.
 Proof. induction a as [|c r IH]; simpl; [reflexivity|]. destruct (c =? 10); rewrite IH; reflexivity. Qed.
@@ -21,15 +26,63 @@ Proof.
   revert l; induction n as [|n IH]; intros l; simpl; [reflexivity|].
   destruct l as [|x r]; simpl; [destruct m; reflexivity|]. apply IH.
 Qed.
+Lemma skipn_sat {A} (l : list A) m : skipn m l = skipn (List.length (firstn m l)) l.
+Proof. revert l; induction m as [|m IH]; intros [|x r]; simpl; auto. Qed.
+Lemma firstn_sat {A} (l : list A) m : firstn m l = firstn (List.length (firstn m l)) l.
+Proof. revert l; induction m as [|m IH]; intros [|x r]; simpl; auto. f_equal. apply IH. Qed.
 
-Lemma consume_pos src m st s st' : pos_ok src st -> consume m st = (s, st') -> pos_ok src st'.
+Lemma consume_pos src m st s st' : pos_ok src st -> consume m st = (s, st') ->
+  pos_ok src st' /\ s = firstn m (skipn (r_pos st) src) /\ r_pos st' = (r_pos st + List.length s)%nat.
 Proof.
-  intros (n & Ht & Hl) H. unfold consume in H. inversion H; subst; clear H.
-  exists (n + m)%nat. simpl. rewrite Ht, Hl, skipn_add, firstn_add, count_nl_app. split; [reflexivity|lia].
+  intros (Ht & Hl & Hb) H. unfold consume in H. inversion H; subst; clear H. cbn [r_pos r_txt r_line].
+  split; [|split; [rewrite Ht; reflexivity|reflexivity]].
+  unfold pos_ok. cbn [r_pos r_txt r_line].
+  set (m' := List.length (firstn m (r_txt st))).
+  assert (Hm : (m' <= List.length (r_txt st))%nat) by (unfold m'; rewrite firstn_length; lia).
+  rewrite Ht in Hm. rewrite skipn_length in Hm.
+  repeat split.
+  - rewrite (skipn_sat (r_txt st) m). fold m'. rewrite Ht, skipn_add. reflexivity.
+  - rewrite firstn_add, count_nl_app, Hl. rewrite (firstn_sat (r_txt st) m). fold m'. rewrite Ht. lia.
+  - lia.
 Qed.
 
-Lemma mkR_pos src st ws ae : pos_ok src st -> pos_ok src (mkR (r_txt st) (r_line st) ws ae).
-Proof. intros (n & H1 & H2). exists n. simpl. auto. Qed.
+(* positions *)
+Definition closed_by (src : text) (pos : nat) (tok : text) : Prop :=
+  (2 <= pos)%nat /\ firstn 2 (skipn (pos - 2) src) = tok.
+Definition opened (src : text) (pos : nat) (tok : text) : Prop :=
+  exists p0, pos = (p0 + List.length tok)%nat /\ tok = firstn 2 (skipn p0 src).
+
+Lemma find2_at a b : forall s e, find2 a b s = Some e ->
+  firstn 2 (skipn e s) = [a; b] /\ (e + 2 <= List.length s)%nat.
+Proof.
+  induction s as [|c r IH]; intros e H; [discriminate|]. simpl in H.
+  destruct r as [|d r']; [discriminate|].
+  destruct ((c =? a) && (d =? b)) eqn:E.
+  - inversion H; subst. apply andb_true_iff in E as [E1 E2]. apply N.eqb_eq in E1, E2. subst. simpl. split; [reflexivity|lia].
+  - destruct (find2 a b (d :: r')) as [e'|] eqn:E'; [|discriminate]. inversion H; subst.
+    destruct (IH e' eq_refl) as [H1 H2]. split; [exact H1|simpl in *; lia].
+Qed.
+
+Lemma after_find src a b r n t r0 t0 r1 :
+  pos_ok src r -> find2 a b (r_txt r) = Some n ->
+  consume n r = (t, r0) -> consume 2 r0 = (t0, r1) ->
+  closed_by src (r_pos r1) [a; b].
+Proof.
+  intros Hp Hf H1 H2. destruct (find2_at a b _ _ Hf) as [Ha Hb].
+  destruct (consume_pos _ _ _ _ _ Hp H1) as (Hp0 & Es & Ep0).
+  destruct (consume_pos _ _ _ _ _ Hp0 H2) as (Hp1 & Es0 & Ep1).
+  destruct Hp as (Ht & _ & _).
+  assert (Ln : List.length t = n).
+  { rewrite Es, firstn_length, <- Ht. lia. }
+  assert (Et0 : t0 = [a; b]).
+  { rewrite Es0, Ep0, Ln, <- skipn_add, <- Ht. exact Ha. }
+  unfold closed_by. rewrite Ep1, Ep0, Ln, Et0. simpl List.length. split; [lia|].
+  replace (r_pos r + n + 2 - 2)%nat with (r_pos r + n)%nat by lia.
+  rewrite <- skipn_add, <- Ht. exact Ha.
+Qed.
+
+Lemma mkR_pos src st ws ae : pos_ok src st -> pos_ok src (mkR (r_txt st) (r_line st) ws ae (r_pos st)).
+Proof. intros H. exact H. Qed.
 
 Ltac step H :=
   match type of H with
@@ -41,89 +94,127 @@ Ltac derive :=
   | Hc : consume _ ?a = (_, ?b), Hp : pos_ok ?src ?a |- _ =>
       lazymatch goal with
       | _ : pos_ok src b |- _ => fail
-      | _ => pose proof (consume_pos _ _ _ _ _ Hp Hc)
+      | _ => pose proof (proj1 (consume_pos _ _ _ _ _ Hp Hc))
+      end
+  end;
+  repeat match goal with
+  | Hf : find2 ?a ?b (r_txt ?r) = Some ?n, H1 : consume ?n ?r = (_, ?r0), H2 : consume 2 ?r0 = (_, ?r1),
+    Hp : pos_ok ?src ?r |- _ =>
+      lazymatch goal with
+      | _ : closed_by src (r_pos r1) _ |- _ => fail
+      | _ => pose proof (after_find _ _ _ _ _ _ _ _ _ Hp Hf H1 H2)
       end
   end.
 
+Definition some_block (ib : option text) : Prop := match ib with Some _ => True | None => False end.
+
 Lemma parse_ok_pos : forall f src st ib il acc body st',
-  parse_body f st ib il acc = POk (body, st') -> pos_ok src st -> pos_ok src st'.
+  parse_body f st ib il acc = POk (body, st') -> pos_ok src st ->
+  pos_ok src st' /\ (some_block ib -> closed_by src (r_pos st') [37; 125]).
 Proof.
   induction f as [|f IH]; intros src st ib il acc body st' H Hp; [discriminate|].
   cbn [parse_body] in H.
   destruct (scan (r_txt st) 0) as [curly|] eqn:Escan.
   2:{ destruct ib; [discriminate|]. destruct (consume_all st) as [s st1] eqn:Ec.
-      injection H as _ <-. unfold consume_all in Ec. eapply consume_pos; eauto. }
+      injection H as _ <-. unfold consume_all in Ec. split; [|intros []].
+      exact (proj1 (consume_pos _ _ _ _ _ Hp Ec)). }
   destruct (match curly with
             | O => (acc, st)
             | S _ => let '(c, st'0) := consume curly st in (NText c (r_line st'0) (r_ws st'0) :: acc, st'0)
             end) as [acc1 st1] eqn:E1.
   assert (Hp1 : pos_ok src st1).
   { destruct curly; [inversion E1; subst; auto|]. destruct (consume (S curly) st) as [c0 st0] eqn:Ec.
-    inversion E1; subst. eapply consume_pos; eauto. }
+    inversion E1; subst. exact (proj1 (consume_pos _ _ _ _ _ Hp Ec)). }
   clear E1.
   repeat (step H; derive;
           try solve [ discriminate
-                    | injection H as _ <-; assumption
+                    | injection H as _ <-; split; [assumption|intros _; assumption]
                     | eapply IH; [exact H|]; first [assumption | apply mkR_pos; assumption]
                     ]).
   all: match goal with
        | Hb : parse_body _ ?s _ _ [] = POk (_, _), Hq : pos_ok _ ?s |- _ =>
-           pose proof (IH _ _ _ _ _ _ _ Hb Hq)
+           pose proof (proj1 (IH _ _ _ _ _ _ _ Hb Hq))
        end; eapply IH; [exact H|assumption].
 Qed.
 
-(* every ParseError names the line of the reader's position in the source *)
-Lemma parse_err_pos : forall f src st ib il acc k line,
-  parse_body f st ib il acc = PErr (PE k line) -> pos_ok src st ->
-  exists n, line = (1 + count_nl (firstn n src))%nat.
+Definition second_is (tok : text) (c : N) : Prop := second tok = c.
+
+Definition where_ok (src : text) (k : pek) (pos : nat) : Prop :=
+  match k with
+  | MissingEnd => scan (skipn pos src) 0 = None
+  | MissingEndComment =>
+      find2 35 125 (skipn pos src) = None /\ exists tok, opened src pos tok /\ second tok = 35
+  | MissingEndExpr =>
+      find2 125 125 (skipn pos src) = None /\ exists tok, opened src pos tok /\ second tok = 123
+  | MissingEndBlock =>
+      find2 37 125 (skipn pos src) = None
+      /\ exists tok, opened src pos tok /\ second tok <> 35 /\ second tok <> 123
+  | EmptyExpr => closed_by src pos [125; 125]
+  | _ => closed_by src pos [37; 125]
+  end.
+
+Lemma opened_of src st1 tok st2 : pos_ok src st1 -> consume 2 st1 = (tok, st2) -> opened src (r_pos st2) tok.
 Proof.
-  induction f as [|f IH]; intros src st ib il acc k line H Hp; [discriminate|].
+  intros Hp Hc. destruct (consume_pos _ _ _ _ _ Hp Hc) as (_ & Es & Ep).
+  exists (r_pos st1). split; assumption.
+Qed.
+
+Lemma parse_err_exact : forall f src st ib il acc k line pos,
+  parse_body f st ib il acc = PErr (PE k line pos) -> pos_ok src st ->
+  line = (1 + count_nl (firstn pos src))%nat /\ (pos <= List.length src)%nat /\ where_ok src k pos.
+Proof.
+  induction f as [|f IH]; intros src st ib il acc k line pos H Hp; [discriminate|].
   cbn [parse_body] in H.
   destruct (scan (r_txt st) 0) as [curly|] eqn:Escan.
   2:{ destruct ib; [|destruct (consume_all st); discriminate].
-      injection H as _ <-. destruct Hp as (n & _ & Hl). eauto. }
+      injection H as <- <- <-. destruct Hp as (Ht & Hl & Hb). repeat split; auto.
+      simpl. rewrite <- Ht. exact Escan. }
   destruct (match curly with
             | O => (acc, st)
             | S _ => let '(c, st'0) := consume curly st in (NText c (r_line st'0) (r_ws st'0) :: acc, st'0)
             end) as [acc1 st1] eqn:E1.
   assert (Hp1 : pos_ok src st1).
   { destruct curly; [inversion E1; subst; auto|]. destruct (consume (S curly) st) as [c0 st0] eqn:Ec.
-    inversion E1; subst. eapply consume_pos; eauto. }
+    inversion E1; subst. exact (proj1 (consume_pos _ _ _ _ _ Hp Ec)). }
   clear E1.
+  destruct (consume 2 st1) as [tok st2] eqn:E2.
+  pose proof (opened_of _ _ _ _ Hp1 E2) as Hop.
+  pose proof (proj1 (consume_pos _ _ _ _ _ Hp1 E2)) as Hp2.
   repeat (step H; derive;
           try solve [ discriminate
-                    | injection H as _ <-;
-                      match goal with Hq : pos_ok _ ?s |- exists n, r_line ?s = _ =>
-                        destruct Hq as (n0 & _ & Hl0); eauto end
+                    | injection H as <- <- <-;
+                      match goal with Hq : pos_ok _ ?s |- _ /\ _ /\ where_ok _ _ (r_pos ?s) =>
+                        destruct Hq as (Ht0 & Hl0 & Hb0); split; [exact Hl0|split; [exact Hb0|]];
+                        simpl; first
+                          [ assumption
+                          | split; [rewrite <- Ht0; assumption|];
+                            exists tok; split; [assumption|];
+                            first [ apply N.eqb_eq; assumption
+                                  | split; intro Hx; rewrite Hx in *; discriminate ] ]
+                      end
                     | eapply IH; [exact H|]; first [assumption | apply mkR_pos; assumption]
                     ]).
   all: try match goal with
        | Hb : parse_body _ ?s _ _ [] = POk (_, _), Hq : pos_ok _ ?s |- _ =>
-           pose proof (parse_ok_pos _ _ _ _ _ _ _ _ Hb Hq)
+           destruct (parse_ok_pos _ _ _ _ _ _ _ _ Hb Hq) as [Hq5 Hc5]; specialize (Hc5 I)
        end.
   all: first
-    [ injection H as _ <-;
-      match goal with Hq : pos_ok _ ?s |- exists n, r_line ?s = _ =>
-        destruct Hq as (n0 & _ & Hl0); eauto end
+    [ injection H as <- <- <-;
+      match goal with Hq : pos_ok _ ?s |- _ /\ _ /\ where_ok _ _ (r_pos ?s) =>
+        destruct Hq as (Ht0 & Hl0 & Hb0); split; [exact Hl0|split; [exact Hb0|simpl; assumption]] end
     | eapply IH; [exact H|assumption]
     | match goal with
       | Hb : parse_body _ _ _ _ [] = PErr ?e |- _ => injection H as ->; eapply IH; [exact Hb|assumption]
       end ].
 Qed.
 
-Theorem parse_file_error_line : forall ws ae name src k line,
-  parse_file ws ae name src = PErr (PE k line) ->
-  exists n, line = (1 + count_nl (firstn n src))%nat.
+Theorem parse_file_error_exact : forall ws ae name src k line pos,
+  parse_file ws ae name src = PErr (PE k line pos) ->
+  line = (1 + count_nl (firstn pos src))%nat /\ (pos <= List.length src)%nat /\ where_ok src k pos.
 Proof.
-  intros ws ae name src k line H. unfold parse_file in H.
+  intros ws ae name src k line pos H. unfold parse_file in H.
   destruct (ws_of_text ws) as [m|]; [|discriminate].
-  destruct (parse_body (S (List.length src)) (mkR src 1 m ae) None false []) as [[b s]|e] eqn:E; [discriminate|].
-  injection H as ->. eapply parse_err_pos; [exact E|]. exists O. simpl. auto.
-Qed.
-
-Corollary parse_file_error_line_in_range : forall ws ae name src k line,
-  parse_file ws ae name src = PErr (PE k line) -> (1 <= line <= 1 + count_nl src)%nat.
-Proof.
-  intros ws ae name src k line H. destruct (parse_file_error_line _ _ _ _ _ _ H) as (n & ->).
-  split; [lia|]. rewrite <- (firstn_skipn n src) at 2. rewrite count_nl_app. lia.
+  destruct (parse_body (S (List.length src)) (mkR src 1 m ae 0) None false []) as [[b s]|e] eqn:E; [discriminate|].
+  injection H as ->. eapply parse_err_exact; [exact E|].
+  unfold pos_ok. simpl. repeat split; lia.
 Qed.
